@@ -27,14 +27,14 @@ PROP = {
         ],
         "runs": [{
             "component": "wsstream",
-            "quick": {"gen": [(20000, 30)], "enum": [(4, 0), (3, 1), (3, 2)]},
-            "thorough": {"gen": [(60000, 40)], "enum": [(5, 0), (4, 1)]},
+            "quick": {"gen": [(20000, 30)], "enum": [(4, 0), (3, 1), (3, 2), (4, 3)]},
+            "thorough": {"gen": [(60000, 40)], "enum": [(5, 0), (4, 1), (5, 3)]},
         }],
         "rule": "scripts = a client Stream attached to a scripted transport (max message size from {0,1,2,8,16,64,125,126,130,300}) "
                 "followed by up to 30-40 events: peer frames (data, fragments, ping, pong, valid/invalid close, every framing-violation "
                 "class, frames over the maximum), transport EOF/error, and local calls NextFrame/NextMessage/Write/WriteFrame/Flush/Close, "
-                "each blocking or asynchronous; half of the scripts are single-violation mutations of conforming sessions; exhaustive = "
-                "every sequence of 3-5 events over alphabets of 10 and 21 events; a script is non-trivial when the model reached a "
+                "each blocking or asynchronous, and windows in which the transport holds asynchronous writes back while further write-type calls are made (a Close or a data frame still in flight); half of the scripts are single-violation mutations of conforming sessions; exhaustive = "
+                "every sequence of 3-5 events over alphabets of 10, 21, 15 and 12 (held-back writes) events; a script is non-trivial when the model reached a "
                 "non-default branch (pong queued, close reply, Close(1002), violation after our own close, close acked, abnormal 1006, "
                 "gated EOF sync/async, fragmentation error, too big, refused write, ...); distinct = by SHA-1 of the implementation trace",
         "trusted_base": WS_TB,
